@@ -57,6 +57,8 @@ class SimLoop(asyncio.BaseEventLoop):
         self.jumps = 0
         self._clock_resolution = 1e-9
         self._selector = _Selector(self)
+        # un-retrieved exceptions of orphan tasks are part of some scenarios: keep stderr quiet
+        self.set_exception_handler(lambda loop, context: None)
         ALL_LOOPS.append(self)
 
     def time(self):
